@@ -18,6 +18,8 @@ from typing import Any, Dict, List
 from harness import cache_common as cc
 from harness.core import REPO, Ctx
 
+CHILD_TIMEOUT = 300.0
+
 _CHILD = r"""
 import os, sys, signal, pathlib, pickle, json
 K = int(sys.argv[2]); MODE = sys.argv[3]
@@ -62,8 +64,20 @@ def _child(model: pathlib.Path, tmpdir: pathlib.Path, k: int, mode: str) -> Dict
     proc = subprocess.Popen([sys.executable, "-B", "-c", _CHILD, str(model), str(k), mode], env=env, stdout=subprocess.PIPE, stderr=subprocess.PIPE)
     if mode == "kill":
         # wait until the child stops itself or exits
+        import time
+
+        deadline = time.time() + CHILD_TIMEOUT
         while True:
-            pid, status = os.waitpid(proc.pid, os.WUNTRACED)
+            pid, status = os.waitpid(proc.pid, os.WUNTRACED | os.WNOHANG)
+            if pid == 0:
+                if time.time() > deadline:
+                    # the child neither stops nor exits (the code under test blocks): an observation, not a harness error
+                    os.kill(proc.pid, signal.SIGKILL)
+                    os.waitpid(proc.pid, 0)
+                    proc.returncode = -9
+                    return {"ok": False, "hang": True}
+                time.sleep(0.01)
+                continue
             if os.WIFSTOPPED(status):
                 os.kill(proc.pid, signal.SIGKILL)
                 os.waitpid(proc.pid, 0)
@@ -73,7 +87,12 @@ def _child(model: pathlib.Path, tmpdir: pathlib.Path, k: int, mode: str) -> Dict
             break
         out = proc.stdout.read() if proc.stdout else b""
     else:
-        out, _ = proc.communicate(timeout=300)
+        try:
+            out, _ = proc.communicate(timeout=CHILD_TIMEOUT)
+        except subprocess.TimeoutExpired:
+            proc.kill()
+            proc.communicate()
+            return {"ok": False, "hang": True}
     try:
         return json.loads(out.decode().strip().splitlines()[-1])
     except Exception:  # noqa
@@ -81,8 +100,11 @@ def _child(model: pathlib.Path, tmpdir: pathlib.Path, k: int, mode: str) -> Dict
 
 
 def judge_dir(tmpdir: pathlib.Path, text: str) -> List[str]:
-    import pickle
+    import hashlib
 
+    from harness import cache_rig as rig
+
+    want = hashlib.sha256(text.encode("utf-8", "surrogatepass")).hexdigest()
     bad = []
     for d in tmpdir.iterdir():
         if not d.is_dir():
@@ -92,12 +114,15 @@ def judge_dir(tmpdir: pathlib.Path, text: str) -> List[str]:
             if p.name.endswith(".tmp"):
                 continue
             try:
-                with open(p, "rb") as f:
-                    obj = pickle.load(f)
-                if obj.atok.text != text:
-                    bad.append(f"entry {p.name} holds another text")
-            except BaseException:  # noqa
-                bad.append(f"entry {p.name} cannot be unpickled")
+                data = p.read_bytes()
+            except OSError:
+                bad.append(f"entry {p.name} cannot be read")
+                continue
+            status, text_sha, _ = rig.PROBER.probe(data)  # unpickled in the probe child, under a time limit
+            if status != "ok":
+                bad.append(f"entry {p.name} cannot be unpickled ({status})")
+            elif text_sha != want:
+                bad.append(f"entry {p.name} holds another text")
     return bad
 
 
